@@ -1020,7 +1020,10 @@ impl SolarDay {
   pub fn get_solar_week(&self, start: usize) -> SolarWeek {
     let y: isize = self.get_year();
     let m: usize = self.get_month();
-    SolarWeek::from_ym(y, m, ((self.day + SolarDay::from_ymd(y, m, 1).get_week().next(-(start as isize)).get_index()) as f64 / 7.0).ceil() as usize - 1, start)
+    // 按本日是当月第几天计算（1582年10月缺10天，不能直接用日的数字）
+    let first_day: SolarDay = SolarDay::from_ymd(y, m, 1);
+    let day_in_month: usize = self.subtract(first_day) as usize + 1;
+    SolarWeek::from_ym(y, m, ((day_in_month + first_day.get_week().next(-(start as isize)).get_index()) as f64 / 7.0).ceil() as usize - 1, start)
   }
 
   /// 节气
